@@ -117,6 +117,53 @@ func extra() {
 	}
 	emitList("renderLoops", loops)
 	emitStr("renderKeysFrom", keysFrom)
+	// engine.go recursion guard: the limit, whether tpl hands the counters it was given to the include and
+	// tpl closures of its clone (and initFunMap one map to both), whether tpl counts its own nesting
+	emitNat("recursionMaxNums", need(consts(eng), "recursionMaxNums"))
+	shares, counts := false, false
+	secondArgs := func(fd *ast.FuncDecl) []string {
+		var out []string
+		if fd == nil || fd.Body == nil {
+			return out
+		}
+		ast.Inspect(fd.Body, func(n ast.Node) bool {
+			if c, ok := n.(*ast.CallExpr); ok {
+				if id, ok := c.Fun.(*ast.Ident); ok && (id.Name == "includeFun" || id.Name == "tplFun") && len(c.Args) >= 2 {
+					out = append(out, id.Name+":"+exprText(c.Args[1]))
+				}
+			}
+			return true
+		})
+		sort.Strings(out)
+		return out
+	}
+	tf := funcDecl(eng, "", "tplFun")
+	if tf != nil && tf.Type.Params != nil && len(tf.Type.Params.List) >= 2 && len(tf.Type.Params.List[1].Names) == 1 {
+		pn := tf.Type.Params.List[1].Names[0].Name
+		a := secondArgs(tf)
+		b := secondArgs(funcDecl(eng, "Engine", "initFunMap"))
+		shares = len(a) == 2 && a[0] == "includeFun:"+pn && a[1] == "tplFun:"+pn &&
+			len(b) == 2 && b[0][len("includeFun:"):] == b[1][len("tplFun:"):]
+		guard, inc := false, false
+		ast.Inspect(tf.Body, func(n ast.Node) bool {
+			switch x := n.(type) {
+			case *ast.IfStmt:
+				if be, ok := x.Cond.(*ast.BinaryExpr); ok && be.Op.String() == ">" && exprText(be.Y) == "recursionMaxNums" {
+					if ix, ok := be.X.(*ast.IndexExpr); ok && exprText(ix.X) == pn {
+						guard = true
+					}
+				}
+			case *ast.IncDecStmt:
+				if ix, ok := x.X.(*ast.IndexExpr); ok && exprText(ix.X) == pn && x.Tok.String() == "++" {
+					inc = true
+				}
+			}
+			return true
+		})
+		counts = guard && inc
+	}
+	fmt.Fprintf(&out, "def tplSharesCounters : Bool := %v\n", shares)
+	fmt.Fprintf(&out, "def tplCountsNesting : Bool := %v\n", counts)
 	// dry-run spellings accepted by Install.isDryRun / Upgrade.isDryRun, and the guard of the CRD block
 	spellings := func(file, recv string) []string {
 		var out []string
